@@ -6,19 +6,19 @@ from vlib import ToolError, Result, log
 
 # driver lists per property (the drivers scale with the tier themselves)
 PLAN = {
-    "C01": {"models": ["pipeline"], "drivers": ["small", "adversarial"], "thorough_drivers": ["icase-sweep"]},
-    "C02": {"models": ["pipeline"], "drivers": ["small-default", "near-miss"]},
+    "C01": {"models": ["pipeline"], "drivers": ["small", "adversarial", "char-classes"], "thorough_drivers": ["icase-sweep"]},
+    "C02": {"models": ["pipeline", "lang"], "drivers": ["small-default", "near-miss", "char-classes"]},
     "C03": {"drivers": ["classes"], "models": ["class"]},
     "C04": {"drivers": ["icase-words", "icase-sweep"], "models": ["fold"]},
-    "C05": {"drivers": ["small-rep", "repeats"], "models": ["rep"]},
-    "C06": {"drivers": ["presentation"], "models": []},
+    "C05": {"drivers": ["small-rep", "repeats"], "models": ["rep", "repconv"]},
+    "C06": {"drivers": ["presentation", "char-classes"], "models": ["lang"]},
     "C07": {"drivers": ["lattice", "front:hist", "front:large"], "models": ["builder-rust"]},
     "C08": {"models": ["pipeline"], "drivers": ["small-anchors", "anchors"]},
     "C09": {"drivers": ["class-sweep"], "models": ["class"]},
     "C10": {"drivers": ["orders", "front:hist"], "models": ["builder-rust"]},
     "C11": {"drivers": ["escape-words", "front:escsweep"], "models": ["front-laws"]},
     "C12": {"drivers": ["front:cli"], "models": ["front-laws"]},
-    "C13": {"drivers": ["thresholds"], "models": ["rep"]},
+    "C13": {"drivers": ["thresholds"], "models": ["rep", "repconv"]},
     "C14": {"drivers": ["front:py"], "models": ["builder-py", "front-laws"]},
     "C15": {"drivers": ["color"], "models": ["front-laws"]},
     "C16": {"models": ["pipeline", "rep"], "drivers": ["small", "stages"]},
@@ -128,32 +128,63 @@ def model_pipeline(res, known, tier, seed):
                     if cfg not in [r["cfg"] for r in plans[key]["runs"]]:
                         plans[key]["runs"].append({"cfg": cfg})
                         plans[key]["pred"].append(o["out"])
-    # spec -> code: run every behaviour on the real library
-    d = os.path.join(vlib.OUT, "traces", res.prop + "_mcreplay")
+    replay_with_drift(res, known, list(plans.values()), tier, seed, "pipeline")
+    res.exhaustive = True
+
+
+def model_repconv(res, known, tier, seed):
+    """MC_RepConv: the transcription of S5 on every word over {a,b} up to MaxLen x thresholds."""
+    consts = {"MaxLen": 8 if tier == "thorough" else 6, "MaxThr": 3 if tier == "thorough" else 2}
+    inv = ["ClusterLang", "Nested", "Thresholds", "Replay"]
+    m = vlib.run_model("RepConv", constants=consts, invariants=inv, tag="repconv", workers=8)
+    if m["violated"]:
+        raise ToolError("bounded model repconv violates %s" % m["violated"])
+    beh = [o for o in m["objs"] if o.get("replay") == "repconv"]
+    res.states += m["states"]
+    res.transitions += m["transitions"]
+    res.models.append({"model": "MC_RepConv", "constants": consts, "states": m["states"], "transitions": m["transitions"],
+                       "behaviours": len(beh), "invariants": inv})
+    plans = {}
+    for o in beh:
+        p = plans.setdefault(o["w"], {"tcs": [o["w"]], "runs": [], "pred": []})
+        p["runs"].append({"cfg": {"rep": True, "minrep": o["minrep"], "minsub": o["minsub"]}})
+        p["pred"].append(o["out"])
+    replay_with_drift(res, known, list(plans.values()), tier, seed, "repconv")
+
+
+def replay_with_drift(res, known, plist, tier, seed, label):
+    """spec -> code: run every predicted behaviour on the real library (its trace is validated by the monitor) and
+    measure Level-2 drift: does the transcription print exactly the string the code prints?
+    plist: [{"tcs": [...], "runs": [{"cfg": {...}}...], "pred": [predicted output per run]}]"""
+    d = os.path.join(vlib.OUT, "traces", res.prop + "_replay_" + label)
     shutil.rmtree(d, ignore_errors=True)
     os.makedirs(d)
     planf = os.path.join(d, "plans.ndjson")
-    plist = list(plans.values())
     with open(planf, "w") as f:
         for p in plist:
-            f.write(json.dumps({"tcs": p["tcs"], "runs": p["runs"], "tag": "mc-replay"}) + "\n")
+            f.write(json.dumps({"tcs": p["tcs"], "runs": p["runs"], "tag": "mc-replay-" + label}) + "\n")
     os.environ["VERIF_KEEP"] = "1"
-    stats, agg = vlib.run_driver(res, known, "file:" + planf, tier, seed)
-    del os.environ["VERIF_KEEP"]
-    # Level-2 drift: does the transcription print exactly what the code prints?
+    try:
+        vlib.run_driver(res, known, "file:" + planf, tier, seed)
+    finally:
+        del os.environ["VERIF_KEEP"]
     tdir = os.path.join(vlib.OUT, "traces", "%s_%s" % (res.prop, ("file:" + planf).replace(":", "_").replace("/", "_")))
     idx = vlib.load_index(tdir)
-    pred = {json.dumps(sorted(p["tcs"])): p for p in plist}
+    pred = {json.dumps(sorted(set(p["tcs"]))): p for p in plist}
     same = diff = 0
     examples = []
+
+    def norm(c):
+        return {k: v for k, v in c.items() if v is True or (v is not False and v != 1)}
     for key, g in idx.items():
-        p = pred.get(json.dumps(sorted(g["tcs"])))
+        p = pred.get(json.dumps(sorted(set(g["tcs"]))))
         if not p:
             continue
+        wanted = [norm(x["cfg"]) for x in p["runs"]]
         for r in g["runs"]:
-            c = {"nostart": r["cfg"]["nostart"], "noend": r["cfg"]["noend"]}
-            if c in [x["cfg"] for x in p["runs"]]:
-                want = p["pred"][[x["cfg"] for x in p["runs"]].index(c)]
+            c = norm(r["cfg"])
+            if c in wanted:
+                want = p["pred"][wanted.index(c)]
                 if r.get("out") == want:
                     same += 1
                 else:
@@ -162,10 +193,10 @@ def model_pipeline(res, known, tier, seed):
                         examples.append({"tcs": g["tcs"], "cfg": c, "model": want, "code": r.get("out")})
     shutil.rmtree(tdir, ignore_errors=True)
     shutil.rmtree(d, ignore_errors=True)
-    res.extra["level2_drift"] = {"behaviours_replayed": same + diff, "identical_output_strings": same,
-                                 "different_output_strings": diff, "examples": examples,
-                                 "note": "string equality with the transcription is a fidelity measure of the model, never a violation"}
-    res.exhaustive = True
+    res.extra.setdefault("level2_drift", {})[label] = {
+        "behaviours_replayed": same + diff, "identical_output_strings": same, "different_output_strings": diff,
+        "examples": examples,
+        "note": "string equality with the transcription measures the fidelity of the model; it is never a violation"}
 
 
 BUILDER_INV = ["OnlyDocumentedFailures", "DocumentedMessages", "CfgIsFunctionOfAncestry", "Replay"]
@@ -350,7 +381,22 @@ def model_fold(res, known, tier, seed):
     shutil.rmtree(d, ignore_errors=True)
 
 
-MODELS = {"fold": model_fold, "front-laws": model_front_laws, "class": model_class, "rep": model_rep, "pipeline": model_pipeline, "builder-rust": model_builder("rust"), "builder-py": model_builder("py"),
+LANG_INV = ["SymbolicEquality", "SymbolicEqualityModEps", "SymbolicMembership", "OrderedAgrees", "FindSane"]
+
+
+def model_lang(res, known, tier, seed):
+    """MC_Lang: the explicit-set, symbolic and ordered semantics of Lang.tla agree on all small regex ASTs."""
+    consts = {"Depth": 2 if tier == "thorough" else 1}
+    m = vlib.run_model("Lang", constants=consts, invariants=LANG_INV, tag="lang_semantics", workers=8, timeout=3400)
+    if m["violated"]:
+        raise ToolError("bounded model lang_semantics violates %s" % m["violated"])
+    res.states += m["states"]
+    res.transitions += m["transitions"]
+    res.models.append({"model": "MC_Lang", "constants": consts, "states": m["states"], "transitions": m["transitions"],
+                       "invariants": LANG_INV})
+
+
+MODELS = {"repconv": model_repconv, "lang": model_lang, "fold": model_fold, "front-laws": model_front_laws, "class": model_class, "rep": model_rep, "pipeline": model_pipeline, "builder-rust": model_builder("rust"), "builder-py": model_builder("py"),
           "builder-wasm": model_builder("wasm")}
 
 
